@@ -3,7 +3,25 @@ sys.path.insert(0, os.path.dirname(os.path.dirname(os.path.abspath(__file__))))
 import checklib
 
 
+def regen_calls(ctx):
+    """Regenerates lean/Hive/Gen/C16_Calls.lean: every call made by every function of workerpool.go / task.go (go/ast,
+    harness/c16/callgraph) - the lock scripts' call graph is closed under it (C16_calls_closed)."""
+    out = os.path.join(checklib.LEAN, "Hive", "Gen", "C16_Calls.lean")
+    tmp = os.path.join(ctx.scratch, "C16_Calls.lean")
+    args = ["go", "run", "./c16/callgraph", tmp, "Hive.Gen.C16Calls",
+            os.path.join(ctx.repo, "runtime/workerpool/workerpool.go"), os.path.join(ctx.repo, "runtime/workerpool/task.go")]
+    rc, log = checklib.sh(args, cwd=checklib.HARNESS, timeout=600)
+    if rc != 0 or not os.path.exists(tmp):
+        return [{"kind": "callgraph-extractor", "detail": checklib.tail(log, 20)}]
+    checklib.write_gen(ctx, out, open(tmp).read())
+    return []
+
+
 def regen(ctx):
+    return regen_skel(ctx) + regen_calls(ctx)
+
+
+def regen_skel(ctx):
     wp = "runtime/workerpool/workerpool.go:WorkerPool."
     return checklib.regen_skeletons(ctx, [
         wp + "Start", wp + "startIfStopped", wp + "Submit", wp + "increasePendingTasksIfRunning",
@@ -51,7 +69,7 @@ SPEC = {
                  "C16_old_start_witness", "C16_old_start_race_witness", "C16_haswork_order_witness", "C16_signal_one_witness",
                  "C16_foreign_waiters_example", "C16_subscriber_stream",
                  "C16_zero_workers_witness", "C16_sched_haswork_example", "C16_sched_foreign_example", "C16_sched_window_example", "C16_sched_window_busy_example", "C16_sched_gap_example", "C16_sched_restart_example", "C16_sched_start_race_example", "C16_sched_reject_restart_example", "C16_reject_restart_example", "C16_task_panic_example", "C16_rejected_submit_touches_nothing", "C16_rejected_submit_returns", "C16_old_sched_example", "C16_variant_sched_example", "C16_stack_fifo", "C16_counter_update", "C16_debounce", "C16_debounce_example", "C16_debounce_exec_is_latest", "C16_group_shutdown_wait", "C16_group_flags_monotone", "C16_group_wait_parents", "C16_group_stopped_pool_drains", "C16_group_shutdown_stops_children", "C16_group_shutdown_window_example", "C16_group_shutdown_orphan_example", "C16_group_restart_example", "C16_group_restart_only_pools",
-                 "C16_lockscript_report", "C16_lockscript_no_reentry", "C16_lockscript_no_wait_under_lock", "C16_lockscript_balanced", "C16_lockscript_order_acyclic", "C16_lockscript_defer_discipline", "C16_lockscript_reentry_witness", "C16_lockscript_abba_witness", "C16_lockscript_wait_under_lock_witness", "C16_lockscript_defer_witness", "C16_lockscript_deadlock_free", "C16_lockscript_tasks_run_unlocked", "C16_lockscript_submit_ops_example", "C16_lockscript_abba_deadlock_witness",
+                 "C16_lockscript_report", "C16_lockscript_no_reentry", "C16_lockscript_no_wait_under_lock", "C16_lockscript_balanced", "C16_lockscript_order_acyclic", "C16_lockscript_defer_discipline", "C16_lockscript_reentry_witness", "C16_lockscript_abba_witness", "C16_lockscript_wait_under_lock_witness", "C16_lockscript_defer_witness", "C16_lockscript_deadlock_free", "C16_lockscript_tasks_run_unlocked", "C16_calls_pinned", "C16_calls_declared", "C16_calls_closed", "C16_lockscript_submit_ops_example", "C16_lockscript_abba_deadlock_witness",
                  "C16_skeleton_Counter_Increase", "C16_skeleton_Counter_Decrease", "C16_skeleton_Counter_WaitIsZero", "C16_skeleton_Counter_Set", "C16_skeleton_Counter_set", "C16_skeleton_Counter_WaitIsAbove", "C16_skeleton_Stack_Pop", "C16_skeleton_Stack_WaitIsEmpty", "C16_skeleton_Stack_WaitSizeIsBelow", "C16_skeleton_WorkerPool_DebounceFunc", "C16_skeleton_WorkerPool_WorkerCount",
                  "C16_skeleton_WorkerPool_Start", "C16_skeleton_WorkerPool_startIfStopped", "C16_skeleton_WorkerPool_Submit", 
                  "C16_skeleton_WorkerPool_increasePendingTasksIfRunning", "C16_skeleton_WorkerPool_decreasePendingTasks", "C16_skeleton_WorkerPool_hasWork", 
